@@ -16,7 +16,7 @@ from drive_bnfold import rints, set_named, EPS, EX, EK, EG, EB, EFB
 from drive_layers import ints
 
 L = tf.keras.layers
-CLASSES = ["QDense", "QConv1D", "QConv2D", "QDepthwiseConv2D", "QSeparableConv2D", "QSimpleRNN", "QLSTM", "QGRU",
+CLASSES = ["QDense", "QConv1D", "QConv2D", "QDepthwiseConv2D", "QSeparableConv2D", "QSeparableConv1D", "QSimpleRNN", "QLSTM", "QGRU",
            "QBidirectional", "QBatchNormalization", "QScaleShift"]
 VARIANTS = ["fixed", "po2", "auto_po2_bounds", "auto_po2_unsigned", "auto_axis", "ternary_auto", "binary_axis"]
 INDEP = {"fixed", "po2"}
